@@ -264,6 +264,7 @@ func (n *c14Node) equal(m *c14Node) bool {
 var c14Time5 = map[string]bool{"date": true, "time": true, "datetime": true, "julianday": true, "unixepoch": true}
 var c14Digits = regexp.MustCompile(`^[0-9]+$`)
 var c14NullPrec = regexp.MustCompile(`(?i)(ISNULL|NOTNULL|NOT NULL|IS NULL)\s*(%|>|<|=|\+|-|\*|/|\|\|)`)
+var c14MinusMinus = regexp.MustCompile(`-\s+-`)
 var c14JdRe = regexp.MustCompile(`^24[0-9]{5}\.[0-9]{6}$`)
 
 // "now" forms of a time value per https://sqlite.org/lang_datefunc.html: 'now' (any case; a double-quoted
@@ -677,6 +678,9 @@ func (c *c14Case) emit(w *vWriter) {
 		sort.Strings(c.surv)
 		vc.OracleFail = fmt.Sprintf("non-deterministic call survives (%s): %q -> %q", strings.Join(c.surv, ","), c.in.SQL, c.out)
 		vc.Sig = "C14:nondet-survives:" + c.surv[0] + ":" + same
+	case c.tree != nil && c.otree == nil:
+		vc.OracleFail = fmt.Sprintf("the replicated text is not parsed by the parser that printed it: %q -> %q", c.in.SQL, c.out)
+		vc.Sig = "C14:output-unparsable"
 	case c.clockSplit != "":
 		vc.OracleFail = fmt.Sprintf("'now' has several values within one statement (%s): %q", c.clockSplit, c.in.SQL)
 		vc.Sig = "C14:now-differs-within-statement"
@@ -701,6 +705,10 @@ func (c *c14Case) emit(w *vWriter) {
 	}
 	if vc.OracleFail != "" && strings.HasPrefix(vc.Sig, "C14:meaning-changed") && c14NullPrec.MatchString(c.in.SQL) {
 		vc.Sig = "C14:reprint-changes-binding:postfix-null-test"
+	}
+	if vc.OracleFail != "" && (strings.HasPrefix(vc.Sig, "C14:meaning-changed") || vc.Sig == "C14:output-unparsable") && c14MinusMinus.MatchString(c.in.SQL) && strings.Contains(c.out, "--") {
+		vc.Sig = "C14:reprint-joins-minus-signs"
+		vc.Coq = "" // the output is no longer the statement the model predicts, and cannot be parsed back
 	}
 	if c.multi && vc.OracleFail != "" {
 		vc.Sig = "C14:multi-statement-string:" + same
@@ -883,7 +891,8 @@ func (g *c14Gen) expr(d int, nd bool) string {
 	case k < 9:
 		return g.atom()
 	case k < 12:
-		return g.pick("abs", "length", "typeof", "hex", "lower", "quote", "ABS", "trim") + "(" + g.expr(d-1, nd) + ")"
+		// (no length()/hex(): the Julian-day literal has 6 decimals, so the text form of a real 'now' value is shorter after the rewrite)
+		return g.pick("abs", "typeof", "lower", "quote", "ABS", "trim") + "(" + g.expr(d-1, nd) + ")"
 	case k < 13:
 		return g.pick("coalesce", "ifnull", "max", "min") + "(" + g.expr(d-1, nd) + ", " + g.expr(d-1, nd) + ")"
 	case k < 15:
@@ -893,7 +902,8 @@ func (g *c14Gen) expr(d int, nd bool) string {
 	case k < 17:
 		return g.expr(d-1, nd) + g.pick(" AND ", " OR ") + g.expr(d-1, nd)
 	case k < 18:
-		return g.pick("- ", "NOT ", "+", "~") + g.expr(d-1, nd)
+		// the operand is parenthesised: the printer writes "- -7" as "--7", which starts a comment (known finding, see the corpus)
+		return g.pick("- ", "NOT ", "+", "~") + "(" + g.expr(d-1, nd) + ")"
 	case k < 19:
 		return "(" + g.expr(d-1, nd) + ")"
 	case k < 21:
@@ -1140,6 +1150,8 @@ var c14Corpus = []string{
 	// re-rendering a postfix NULL test without parentheses changes the binding of the operator after it (known finding)
 	`INSERT INTO t(a, b) VALUES (1 ISNULL % 'z', strftime('%s', '2001-01-01'))`,
 	`SELECT id, date('2001-01-01') FROM t WHERE 'x' IS NOT NULL > 1`,
+	// re-rendering joins two minus signs into a comment marker (known finding)
+	`INSERT INTO t(a, b) VALUES (- -7, date('2001-01-01'))`,
 	// several statements in one string (known finding: everything after the first statement is dropped)
 	`INSERT INTO t(a) VALUES (random()); INSERT INTO t(a) VALUES (7)`,
 	`INSERT INTO t(a) VALUES (1); INSERT INTO t(a) VALUES (julianday('now'))`,
